@@ -150,10 +150,11 @@ impl Gatekeeper {
         &self,
         user_id: UserId,
     ) -> Result<RegistrationReceipt, MaxSlotsReached> {
-        let block_count = self.last_known_block_height.load(Ordering::Acquire);
-
         // TODO: For now, new calls to `add_update_user` add subscription_slots to the current count and reset the expiry time
         let mut registered_users = self.registered_users.lock().unwrap();
+        // The height is read with the users locked, so a registration cannot start from the height of before a block
+        // whose purge it has already seen.
+        let block_count = self.last_known_block_height.load(Ordering::Acquire);
         let user_info = match registered_users.get_mut(&user_id) {
             // User already exists, updating the info
             Some(user_info) => {
@@ -252,10 +253,18 @@ impl Gatekeeper {
 
     /// Gets a map of outdated users. Outdated users are those whose subscription has expired and the renewal grace period
     /// has already passed ([expiry_delta](Self::expiry_delta)).
+    #[cfg(test)]
     pub(crate) fn get_outdated_users(&self, block_height: u32) -> Vec<UserId> {
-        self.registered_users
-            .lock()
-            .unwrap()
+        self.outdated_users(&self.registered_users.lock().unwrap(), block_height)
+    }
+
+    /// Same as [Self::get_outdated_users] for a user map that is already locked.
+    fn outdated_users(
+        &self,
+        registered_users: &HashMap<UserId, UserInfo>,
+        block_height: u32,
+    ) -> Vec<UserId> {
+        registered_users
             .iter()
             // NOTE: Ideally there won't be a user with `block_height > subscription_expiry + expiry_delta`, but
             // this might happen if we skip a couple of block connections due to a force update.
@@ -313,23 +322,25 @@ impl chain::Listen for Gatekeeper {
         log::info!("New block received: {}", header.block_hash());
 
         // Expired user deletion is delayed. Users are deleted when their subscription is outdated, not expired.
-        let outdated_users = self.get_outdated_users(height);
+        // The user map is kept locked from picking the outdated users until they are gone from the database too: a
+        // registration landing in between would either be wiped (renewal of a user already picked) or find the user
+        // gone from memory but still in the database.
+        // WARNING(deadlock): `registered_users` has to be locked before `dbm`, same as in `add_update_user`.
+        let mut registered_users = self.registered_users.lock().unwrap();
+        let outdated_users = self.outdated_users(&registered_users, height);
         if !outdated_users.is_empty() {
-            // Remove the outdated users from memory first.
-            {
-                let mut registered_users = self.registered_users.lock().unwrap();
-                // Removing each outdated user in a loop is more efficient than retaining non-outdated users
-                // because retaining would loop over all the available users which is always more than the outdated ones.
-                for outdated_user in outdated_users.iter() {
-                    registered_users.remove(outdated_user);
-                }
+            // Removing each outdated user in a loop is more efficient than retaining non-outdated users
+            // because retaining would loop over all the available users which is always more than the outdated ones.
+            for outdated_user in outdated_users.iter() {
+                registered_users.remove(outdated_user);
             }
             self.dbm.lock().unwrap().batch_remove_users(&outdated_users);
         }
 
-        // Update last known block height
+        // Update last known block height (before letting registrations in again)
         self.last_known_block_height
             .store(height, Ordering::Release);
+        drop(registered_users);
     }
 
     /// Handles reorgs in the [Gatekeeper]. Simply updates the last_known_block_height.
